@@ -113,6 +113,15 @@ def value_class(V):
     return "+".join(cl) or "plain"
 
 
+def scribble(x):
+    """the caller edits what a read-back returned (in place, at every level that is a list)"""
+    if isinstance(x, (list, tuple)):
+        for y in x:
+            scribble(y)
+    if isinstance(x, list):
+        x.append("SCRIBBLE")
+
+
 def one(ns, conds, acts, mt, via_update=False):
     """-> None | (stage, clause, text)"""
     fs = F.new_set(ns)
@@ -159,6 +168,17 @@ def one(ns, conds, acts, mt, via_update=False):
         bad = compare(got, conds, acts, mt)
         if bad:
             return (stage, bad[0], "%s set: %s" % (stage, bad[1]))
+        if stage in ("original", "reloaded"):
+            # what a call returned belongs to the caller: editing it must not change what the next read-back (of any set) returns
+            scribble(got[0])
+            scribble(got[1])
+            try:
+                got = fn() if stage == "original" else readback(fs, "f")
+            except Exception as e:  # noqa
+                return (stage + "-reread", "exception:%s" % type(e).__name__, "second read-back raised %s: %s" % (type(e).__name__, str(e)[:80]))
+            bad = compare(got, conds, acts, mt)
+            if bad:
+                return (stage + "-reread", bad[0], "read again after the caller edited the previous result in place: %s" % bad[1])
     return None
 
 
